@@ -123,10 +123,21 @@ def rstep : P String := do
   | none => pure "raises"
   | some o => pure (stepOut c o)
 
+/-- kwn.setup cfg state a0 eqMulti → same answer format as a step (dtProposed = dt = 0, no xNew) -/
+def setupV : P String := do
+  let c ← cfg; let s ← state; let a ← evalAns
+  let eq ← lst (do
+    let t ← tok
+    if t == "none" then pure none
+    else if t == "some" then do let ea ← flts; let eb ← flts; pure (some (ea, eb))
+    else failure : P (Option (List Float × List Float)))
+  pure (stepOut c { dtProposed := 0, dt := 0, xNew := [], st := setupState c s a eq })
+
 def handle (verb : String) : Option (P String) :=
   match verb with
   | "kwn.estep" => some estep
   | "kwn.rstep" => some rstep
+  | "kwn.setup" => some setupV
   | _ => none
 
 end KawinV.Drv.KWNFull
